@@ -407,3 +407,18 @@ package common
 //@   ensures cancelled: ctx_cancelled(ctx, old(ctx_t)) ==> err != nil
 //@   ensures surfaced: !old(ctx_seen) && ctx_seen ==> err != nil
 //@   ensures time: ctx_t >= old(ctx_t)
+
+// ---------------------------------------------------------------- active set (C07)
+// get_active_validator_indices: the indices with activation_epoch <= epoch < exit_epoch, in registry order.
+// act_count(b, e, n): number of active entries among the first n.
+//@ sort BIdxT = BoundedIndex
+//@ sort BIdxs = []BoundedIndex
+//@ define is_active(v BIdxT, e int) bool = v.Activation <= e && e < v.Exit
+//@ defrec act_count(b BIdxs, e int, n int) int = ite(n <= 0, 0, act_count(b, e, n - 1) + ite(is_active(b[n - 1], e), 1, 0))
+//@ func ActiveIndices(indicesBounded, epoch) out
+//@   property C07
+//@   ensures count: len(out) == act_count(indicesBounded, epoch, len(indicesBounded))
+//@   ensures members: forall i :: {indicesBounded[i]} 0 <= i && i < len(indicesBounded) && is_active(indicesBounded[i], epoch) ==> out[act_count(indicesBounded, epoch, i)] == indicesBounded[i].Index
+//@   loop 1
+//@     invariant len(out) == act_count(indicesBounded, epoch, rangeindex + 1) && len(out) <= rangeindex + 1
+//@     invariant forall i :: {indicesBounded[i]} 0 <= i && i <= rangeindex && is_active(indicesBounded[i], epoch) ==> act_count(indicesBounded, epoch, i) < len(out) && out[act_count(indicesBounded, epoch, i)] == indicesBounded[i].Index
